@@ -40,7 +40,7 @@ func (check) StallSeconds() int { return 20 }
 func (check) Exhaustive(string) bool { return false }
 
 func (check) Rule() string {
-	return "eight workloads split over the case index. (a) strings: all strings of length <=5 over `[]{}\"',:\\a1 ` (quick: all <=3 plus a seed-chosen sample of lengths 4-5) through parse.Value, parse.ValueWithConfig under all 32 parse.Config flag combinations (24 legal, 8 illegal), flag.NewFlagKeyValue.Set/String and a ${ENV} reference read with ResolveEnv; all strings of length <=6 over `${}:+?a.0-` (quick: all <=3 plus a sample of 4-6) stored as a setting under VarExp and read with String/Unpack/Has/CountField/FlattenedKeys/Child without resolver and with resolvers echoing bracket-ish text ({ [1, ${a} ...) under the three predefined parse configs. (b) bytes: documents rendered from small trees as JSON, flow/block YAML and HJSON, then bit flips, token deletion/duplication/swap/replacement, garbage insertion, truncation at every offset, pure garbage, nesting up to depth 10000, anchors/aliases/merge keys/tags, through the yaml/json/hjson loaders with {none, PathSep, PathSep+VarExp}; whatever loads is unpacked into map and slice, flattened and probed with Has/String. (c) names x indices: every getter/setter/Has/Remove/Child/CountField/SetChild/NewFrom/Merge with names from a key-spelling table (plus numeric literals just above every index limit) x idx from MinInt..MaxInt on 10 config shapes (incl. nil values, unresolvable and cyclic references) x 10 option sets (quick: a seed-chosen sample of the units, thorough: all). (d) Unpack targets: a table of ~340 target rows (nil, non-pointers, typed nil pointers, nil/typed interfaces, chan/func/unsafe.Pointer/complex, non-string map keys, pre-filled maps/slices/arrays of structs, pointers, interfaces, arrays as map values, recursive types, unexported/embedded fields, inline tags on every kind, callbacks returning errors, pointer-to-map/slice elements, named primitives, Config and rebranded Config targets, every built-in validator on a field of every kind, malformed validator tags) x 21 config fixtures (matching, primitive/object/list mismatches, nil, references incl. cyclic, unresolvable and to ancestors) x 4 option sets, exhaustively in both tiers; recursive pointer types against next-chains of depth 1..50; plus random reflect-built target types with random pre-fill and random configs. (e) one input that spells a namespace more than once: a small tree T and a variant T' (1-3 point mutations: primitive <-> object <-> list <-> nil, push down, pull up) are cut at random depths into entries (joined path -> subtree, numeric segments for list elements, optionally more joined keys inside the values, optionally *Config values), a shuffled subset of 2-5 entries of both is presented in the drawn and in the reverse order as struct with tagged fields (untyped/typed, random ,replace/,append/,prepend/,merge tag options), struct of inline one-key maps, struct of inline values, such a struct under a key / in a list / inlined into an outer struct, string- and interface-keyed maps filled in that order, and as JSON + one of pretty JSON/block YAML/flow YAML/HJSON documents through the three loaders; every Go presentation goes to NewFrom and to Merge into a config holding T under 9 option sets (none, PathSep with separator from {. / :: -}, +VarExp, +EnableNumKeys, +EscapePath, +MaxIdx(7), +ReplaceValues, +AppendValues, +PrependValues+VarExp) and whatever comes out is unpacked into map and slice, flattened and probed with Has/Child; the panic signature carries what the entries say about a shared path (disjoint, shared-namespace-only, nil-meets-value, primitive-twice, object-vs-primitive; computed by a walk over the generator's own trees). (f) histories on one list (top level, nested, nested in a list under VarExp, the root itself; 0-9 initial elements): 2-10 steps mixing Remove(name,i), Set*(name,idx) with idx drawn around the current length, the previous lengths, the initial and the largest length so far, the next power of two, and merges that append/prepend/replace/merge by index; after every step the list is counted and probed with Has at every index, after a seed-chosen half of the steps and at the end it is traversed by Unpack (map, slice, struct), FlattenedKeys, Merge with the config as source (into an empty, a longer and an appending destination), NewFrom(config), NewFrom({x: config, y: [config]}), Child of the list and Child/String of every element; the signature carries the state of the history (set-behind-end-after-remove, set-behind-end, remove-then-set-or-append, set-or-append-only). (g) a ucfg.Config not made by New (pointer, value, pointer to pointer, rebranded, nil pointer) as source of NewFrom and Merge (into New(), a dictionary, a list, a zero value) at the top level and embedded as map value, list element, typed map/slice/array element, struct field, inline field, interface field, under a dotted key, in a reflect-built struct, under 5 option sets, read afterwards and merged a second time; plus 25 readers/writers called on a zero-value receiver. (h) nesting depths 10^3..3*2^20 (quick: 5 depths, thorough: 7; open/closed lists, objects, mixed, spaced; for documents also block sequences and a reference at the bottom) through parse.Value, parse.ValueWithConfig under 4 configs with arrays, a flag value, an ${ENV} value, a resolver answer and the three loaders without and with PathSep+VarExp (whatever loads is unpacked, flattened and copied) - each (route, shape) in a probe process of its own under the workers' 64 MiB stack cap, ascending depths, so that a fatal error is observed, attributed to the package that recurses and signed, instead of killing the worker. Non-trivial = non-empty input that reached the library; distinct = distinct (workload, input) pair."
+	return "eight workloads split over the case index. (a) strings: all strings of length <=5 over `[]{}\"',:\\a1 ` (quick: all <=3 plus a seed-chosen sample of lengths 4-5) through parse.Value, parse.ValueWithConfig under all 32 parse.Config flag combinations (24 legal, 8 illegal), flag.NewFlagKeyValue.Set/String and a ${ENV} reference read with ResolveEnv; all strings of length <=6 over `${}:+?a.0-` (quick: all <=3 plus a sample of 4-6) stored as a setting under VarExp and read with String/Unpack/Has/CountField/FlattenedKeys/Child without resolver and with resolvers echoing bracket-ish text ({ [1, ${a} ...) under the three predefined parse configs. (b) bytes: documents rendered from small trees as JSON, flow/block YAML and HJSON, then bit flips, token deletion/duplication/swap/replacement, garbage insertion, truncation at every offset, pure garbage, nesting up to depth 10000, anchors/aliases/merge keys/tags, through the yaml/json/hjson loaders with {none, PathSep, PathSep+VarExp}; whatever loads is unpacked into map and slice, flattened and probed with Has/String. (c) names x indices: every getter/setter/Has/Remove/Child/CountField/SetChild/NewFrom/Merge with names from a key-spelling table (plus numeric literals just above every index limit) x idx from MinInt..MaxInt on 10 config shapes (incl. nil values, unresolvable and cyclic references) x 10 option sets (quick: a seed-chosen sample of the units, thorough: all). (d) Unpack targets: a table of ~340 target rows (nil, non-pointers, typed nil pointers, nil/typed interfaces, chan/func/unsafe.Pointer/complex, non-string map keys, pre-filled maps/slices/arrays of structs, pointers, interfaces, arrays as map values, recursive types, unexported/embedded fields, inline tags on every kind, callbacks returning errors, pointer-to-map/slice elements, named primitives, Config and rebranded Config targets, every built-in validator on a field of every kind, malformed validator tags) x 21 config fixtures (matching, primitive/object/list mismatches, nil, references incl. cyclic, unresolvable and to ancestors) x 4 option sets, exhaustively in both tiers; recursive pointer types against next-chains of depth 1..50; plus random reflect-built target types with random pre-fill and random configs. (e) one input that spells a namespace more than once: a small tree T and a variant T' (1-3 point mutations: primitive <-> object <-> list <-> nil, push down, pull up) are cut at random depths into entries (joined path -> subtree, numeric segments for list elements, optionally more joined keys inside the values, optionally *Config values), a shuffled subset of 2-5 entries of both is presented in the drawn and in the reverse order as struct with tagged fields (untyped/typed, random ,replace/,append/,prepend/,merge tag options), struct of inline one-key maps, struct of inline values, such a struct under a key / in a list / inlined into an outer struct, string- and interface-keyed maps filled in that order, and as JSON + one of pretty JSON/block YAML/flow YAML/HJSON documents through the three loaders; every Go presentation goes to NewFrom and to Merge into a config holding T under 9 option sets (none, PathSep with separator from {. / :: -}, +VarExp, +EnableNumKeys, +EscapePath, +MaxIdx(7), +ReplaceValues, +AppendValues, +PrependValues+VarExp) and whatever comes out is unpacked into map and slice, flattened and probed with Has/Child; the panic signature carries what the entries say about a shared path (disjoint, shared-namespace-only, nil-meets-value, primitive-twice, object-vs-primitive; computed by a walk over the generator's own trees). (f) histories on one list (top level, nested, nested in a list under VarExp, the root itself; 0-9 initial elements): 2-10 steps mixing Remove(name,i), Set*(name,idx) with idx drawn around the current length, the previous lengths, the initial and the largest length so far, the next power of two, and merges that append/prepend/replace/merge by index; after every step the list is counted and probed with Has at every index, after a seed-chosen half of the steps and at the end it is traversed by Unpack (map, slice, struct), FlattenedKeys, Merge with the config as source (into an empty, a longer and an appending destination), NewFrom(config), NewFrom({x: config, y: [config]}), Child of the list and Child/String of every element; the signature carries the state of the history (set-behind-end-after-remove, set-behind-end, remove-then-set-or-append, set-or-append-only). (g) a ucfg.Config not made by New (pointer, value, pointer to pointer, rebranded, nil pointer) as source of NewFrom and Merge (into New(), a dictionary, a list, a zero value) at the top level and embedded as map value, list element, typed map/slice/array element, struct field, inline field, interface field, under a dotted key, in a reflect-built struct, under 5 option sets, read afterwards and merged a second time; plus 25 readers/writers called on a zero-value receiver. (h) nesting depths 10^3..3*2^20 (quick: 4 depths and 25 of the (route, shape) pairs, thorough: 7 depths and all 100; open/closed lists, objects, mixed, spaced; for documents also block sequences and a reference at the bottom) through parse.Value, parse.ValueWithConfig under 4 configs with arrays, a flag value, an ${ENV} value, a resolver answer and the three loaders without and with PathSep+VarExp (whatever loads is unpacked, flattened and copied) - each (route, shape) in a probe process of its own under the workers' 64 MiB stack cap, ascending depths, so that a fatal error is observed, attributed to the package that recurses and signed, instead of killing the worker. Non-trivial = non-empty input that reached the library; distinct = distinct (workload, input) pair."
 }
 
 func (check) Assumptions() []string {
@@ -91,9 +91,9 @@ func plan(tier string) []segment {
 		{"d-targets-random", pick(300, 50000), runTargetsRandom},
 		// appended last: the indices of the earlier segments stay what they were
 		{"e-respelled-namespaces", pick(300, 12000), runRespelled},
-		{"f-list-histories", pick(400, 20000), runListHistory},
+		{"f-list-histories", pick(300, 20000), runListHistory},
 		{"g-zero-value-configs", zeroCases(), runZeroConfig},
-		{"h-deep-nesting", len(deepRoutes), runDeep},
+		{"h-deep-nesting", deepCases(tier), runDeep},
 	}
 }
 
